@@ -2,6 +2,7 @@ package props
 
 import (
 	"fmt"
+	"go/token"
 	"go/types"
 
 	"golang.org/x/tools/go/ssa"
@@ -55,4 +56,101 @@ func c03URLForms(c *core.Check) {
 		}
 	}
 	r.OK("scan", "-", fmt.Sprintf("%d values tested for parser.URL", n))
+}
+
+// c03StyleAttrFresh (R13): every style attribute gets the sentinel specificity.  In findStyleAttributes the value
+// stored as the specificity of a style-attribute entry is the specificity literal itself, built in the same
+// iteration — not a variable merged at the head of the loop, which still holds the {0,0,0} that the presentational
+// hints of the previous element assigned to it.
+func c03StyleAttrFresh(c *core.Check) {
+	p := c.Prog
+	r := c.Rule("R13", "findStyleAttributes: the specificity stored with each entry is a specificity literal of the current iteration (a load of the literal, never a merge at the loop header): the weight of a style attribute does not depend on the element visited before", 2)
+	fn := p.Fn("html/tree", "findStyleAttributes")
+	if fn == nil {
+		r.Anchor("html/tree.findStyleAttributes")
+		return
+	}
+	loops := core.Loops(fn)
+	n := 0
+	core.Instrs(fn, func(in ssa.Instruction) {
+		st, ok := in.(*ssa.Store)
+		if !ok {
+			return
+		}
+		fa, ok := st.Addr.(*ssa.FieldAddr)
+		if !ok || core.FieldName(fa) != "specificity" {
+			return
+		}
+		n++
+		key := fmt.Sprintf("html/tree.findStyleAttributes | specificity of entry #%d", n)
+		bad := ""
+		seen := map[ssa.Value]bool{}
+		var walk func(v ssa.Value, d int)
+		walk = func(v ssa.Value, d int) {
+			if seen[v] || d > 6 {
+				return
+			}
+			seen[v] = true
+			if phi, ok := v.(*ssa.Phi); ok {
+				for _, l := range loops {
+					if l.Header == phi.Block() {
+						bad = "a value merged at the head of the loop (" + phi.Comment + ")"
+						return
+					}
+				}
+				for _, e := range phi.Edges {
+					walk(e, d+1)
+				}
+			}
+			// a variable kept in memory (arrays are not promoted to registers): the load must see a store of this iteration
+			if ld, ok := v.(*ssa.UnOp); ok && ld.Op == token.MUL {
+				if al, ok := ld.X.(*ssa.Alloc); ok {
+					var l *core.Loop
+					for _, lp := range loops {
+						if lp.Blocks[ld.Block()] && (l == nil || len(lp.Blocks) > len(l.Blocks)) {
+							l = lp // the outermost loop: the walk over the elements
+						}
+					}
+					if l == nil || l.Blocks[al.Block()] {
+						return // not in a loop, or a variable of the iteration itself
+					}
+					fresh := false
+					for _, ref := range *al.Referrers() {
+						stw := storeInto(ref, al)
+						if stw == nil || !l.Blocks[stw.Block()] {
+							continue
+						}
+						if stw.Block() == ld.Block() && stw.Pos() < ld.Pos() || stw.Block() != ld.Block() && stw.Block().Dominates(ld.Block()) {
+							fresh = true
+						}
+					}
+					if !fresh {
+						bad = "the variable " + al.Comment + ", set before the loop and re-assigned inside it"
+					}
+				}
+			}
+		}
+		walk(st.Val, 0)
+		r.Cond(bad == "", key, p.Pos(st.Pos()), "a literal of the current iteration", "the specificity stored is "+bad+": after an element with presentational hints the next style attribute is weighed {0,0,0} and loses against any selector")
+	})
+	if n == 0 {
+		r.Unknown("html/tree.findStyleAttributes | specificity", p.Pos(fn.Pos()), "no store to a specificity field")
+	}
+}
+
+// storeInto: the instruction writes the variable: a store to it, or to one of its elements.
+func storeInto(ref ssa.Instruction, al *ssa.Alloc) ssa.Instruction {
+	switch x := ref.(type) {
+	case *ssa.Store:
+		if x.Addr == ssa.Value(al) {
+			return x
+		}
+	case *ssa.IndexAddr:
+		for _, r2 := range *x.Referrers() {
+			if st, ok := r2.(*ssa.Store); ok && st.Addr == ssa.Value(x) {
+				return st
+			}
+		}
+	}
+	return nil
 }
